@@ -53,17 +53,8 @@ var quietLog = []string{"logger.Log.", "fmt.", "errors.New", "time.Since", "(tim
 
 // writerHarness builds the abstract environment of a position writer.
 func writerHarness(w *World, pw *ssa.Function) (*Harness, string, string, error) {
-	var pVb, pOff, pDirty *ssa.Parameter
-	for _, p := range pw.Params[1:] {
-		switch {
-		case w.isOffsetPtr(p.Type()):
-			pOff = p
-		case isUint16(p.Type()):
-			pVb = p
-		case isBool(p.Type()):
-			pDirty = p
-		}
-	}
+	in := w.writerInputs(pw)
+	pVb, pOff, pDirty := in.vb, in.off, in.dirty
 	if pVb == nil || pOff == nil || pDirty == nil {
 		return nil, "", "", fmt.Errorf("cannot identify (vbID, offset, dirty) parameters of %s", fname(pw))
 	}
@@ -249,10 +240,8 @@ func c04r2(c *Ctx, id string) {
 				ao := w.Origin(cc.Args[1])
 				okR := strings.HasPrefix(ro, "recv.")
 				okA := false
-				for _, p := range pw.Params[1:] {
-					if isUint16(p.Type()) && ao == "param("+p.Name()+")" {
-						okA = true
-					}
+				if in := w.writerInputs(pw); in.vb != nil && ao == in.vb.Term() {
+					okA = true
 				}
 				if okR && okA {
 					c.OK(id, "range-read@"+fname(pw), instr.Pos(), "range test In(%s) on %s (field read at call time)", ao, ro)
@@ -270,12 +259,7 @@ func c04r2(c *Ctx, id string) {
 func c04r3(c *Ctx, id string) {
 	w := c.W
 	for _, pw := range w.positionWriterFuncs() {
-		var vb *ssa.Parameter
-		for _, p := range pw.Params[1:] {
-			if isUint16(p.Type()) {
-				vb = p
-			}
-		}
+		vb := w.writerInputs(pw).vb
 		if vb == nil {
 			c.Undecided(id, fname(pw), pw.Pos(), "no vbID parameter")
 			continue
@@ -294,7 +278,7 @@ func c04r3(c *Ctx, id string) {
 					c.Fail(id, construct, in.Pos(), "position writer performs a whole-map operation %s", m)
 					return
 				}
-				if k == "param("+vb.Name()+")" {
+				if k == vb.Term() {
 					c.OK(id, construct, in.Pos(), "key ← %s", k)
 				} else {
 					c.Fail(id, construct, in.Pos(), "map operation keyed by %s instead of the vbID parameter", k)
